@@ -654,7 +654,7 @@ def rest_deviation(kind, sysm, q):
   return dev if np.isfinite(dev) else float('inf')
 
 
-REST_OPTS = dict(actuators=(0, 0), stiffness=0.0, gravity=(0.0, 0.0, 0.0), limits=0.5, n_links=(1, 4))
+REST_OPTS = dict(actuators=(0, 0), stiffness=0.0, gravity=(0.0, 0.0, 0.0), limits=0.6, n_links=(1, 4), limit_excl_zero=0.5)
 
 
 def rest_cases(ctx, n_supported, n_any, seed_offset=0):
@@ -668,6 +668,9 @@ def rest_cases(ctx, n_supported, n_any, seed_offset=0):
   for i in range(n_supported):
     kinds = ['one_kind', 'slides_then_hinge', 'hinge'][i % 3]
     plans.append(dict(roots='mixed', stack=(1, 3), kinds=kinds, orthogonal=True))
+  # single limited slides / hinges whose range may exclude zero (1-dof joint-limit code of each pipeline)
+  plans.append(dict(roots='mixed', stack=(1, 1), kinds='slide', limits=1.0, n_links=(2, 3), limit_excl_zero=1.0))
+  plans.append(dict(roots='mixed', stack=(1, 1), kinds='hinge', limits=1.0, n_links=(2, 3), limit_excl_zero=1.0))
   for i in range(n_any):
     plans.append(dict(roots='mixed', stack=(1, 3), kinds='mixed', orthogonal=False))
   for opts in plans:
